@@ -65,17 +65,28 @@ def order_items(items, order):
     return items
 
 
-def make_func(obs, world, script, order='fwd', item_dur=0.0, batch_dur=0.0, dur_by_bid=None, inst=0):
+def make_func(obs, world, script, order='fwd', item_dur=0.0, batch_dur=0.0, dur_by_bid=None, inst=0, eager=False):
     """Harness-owned batch function. script: key -> behaviour
     'value' | 'exc' | 'stopiter' | 'omit' | 'raise_before' | 'raise_after' | 'twice' | 'unknown'"""
     counter = [0]
 
-    async def func(batch):
+    def begin(batch):
         bid = counter[0] if inst == 0 else (inst, counter[0])
         counter[0] += 1
         items = list(batch)
         obs.running += 1
         obs.max_running = max(obs.max_running, obs.running)
+        return bid, items
+
+    if eager:
+        # a batch function that starts its work when CALLED (plain callable returning an async iterator)
+        def efunc(batch):
+            return func(batch, begin(batch))
+    else:
+        efunc = None
+
+    async def func(batch, started=None):
+        bid, items = started if started is not None else begin(batch)
         rec = {'bid': bid, 'start': world.now, 'end': None, 'items': items, 'yields': [],
                'raised': None, 'running_at_start': obs.running, 'fault': False, 'inst': inst,
                'loop': asyncio.get_running_loop()}
@@ -120,7 +131,7 @@ def make_func(obs, world, script, order='fwd', item_dur=0.0, batch_dur=0.0, dur_
         finally:
             obs.running -= 1
             rec['end'] = world.now
-    return func
+    return efunc if eager else func
 
 
 def execute(aiu, events, cfg, script=None, *, form='class', tie=1, tail=None, fresh=()):
@@ -141,7 +152,7 @@ def execute(aiu, events, cfg, script=None, *, form='class', tie=1, tail=None, fr
         world = loop._world
         def mk(inst):
             return make_func(obs, world, script, cfg.get('order', 'fwd'), cfg.get('item_dur', 0.0),
-                             cfg.get('batch_dur', 0.0), cfg.get('dur_by_bid'), inst)
+                             cfg.get('batch_dur', 0.0), cfg.get('dur_by_bid'), inst, cfg.get('eager', False))
         func = mk(0)
         kw = dict(max_batch_size=cfg['mbs'], max_concurrent_batches=cfg['mcb'], batch_timeout=BT,
                   retention_timeout=cfg.get('R', 0.0))
@@ -218,7 +229,10 @@ def execute(aiu, events, cfg, script=None, *, form='class', tie=1, tail=None, fr
             tasks.append(loop.create_task(chain()))
 
         for gap, op in events:
-            if gap:
+            if isinstance(gap, (tuple, list)):      # ('it', k): k loop iterations later, same virtual instant
+                for _ in range(gap[1]):
+                    await asyncio.sleep(0)
+            elif gap:
                 await asyncio.sleep(gap)
             if op[0] == 'call':
                 do_call(op[1], None, 'main')
